@@ -166,6 +166,28 @@ theorem upstream_window_index_witness :
     ({ ({} : Dma) with activeChannel := 8 }).getActive (fun c => c.addrSrcLow) = .error .oob := by
   decide
 
+/-- **DMA, DSP side.**  After the repair every DSP-space address of a transfer is reduced to the 17 bits of
+the two data banks, so the word index is inside the array for every 32-bit channel address. -/
+theorem dma_dsp_index_inbounds (cur : U32) : ∃ i, dspIndex cur = some i ∧ i.toNat < 0x40000 := by
+  unfold dspIndex
+  generalize hx : cur &&& 0x1FFFF = x
+  have hm : x.toNat ≤ 0x1FFFF := by
+    rw [← hx, BitVec.toNat_and]
+    exact Nat.and_le_right
+  have hb : ((0x20000 + x) * 2 : U32).toNat = (0x20000 + x.toNat) * 2 := by
+    simp [BitVec.toNat_mul, BitVec.toNat_add]
+    omega
+  refine ⟨((0x20000 + x) * 2 : U32) >>> 1, ?_, ?_⟩
+  · simp only []
+    rw [if_pos (by rw [hb]; omega)]
+  · rw [BitVec.toNat_ushiftRight, hb, Nat.shiftRight_eq_div_pow]
+    omega
+
+/-- The pinned upstream code used the address unmasked: channel addresses `0x00020000` and `0x0FFF0000` leave
+the array. -/
+theorem upstream_dma_dsp_index_witness : dspIndexUpstream 0x20000 = none ∧ dspIndexUpstream 0x0FFF0000 = none := by
+  decide
+
 /-- MMIO cell index: both callers mask the address to 11 bits, so `cells[off]` is in range. -/
 theorem mmio_offset_inbounds (addr : U16) : (addr &&& 0x7FF).toNat < mmioSize := by
   have : (addr &&& 0x7FF).toNat ≤ 0x7FF := by
